@@ -7,6 +7,8 @@ mod coqfmt;
 mod params;
 mod rng;
 mod c15;
+mod c17;
+mod c16;
 mod pool;
 mod poolgen;
 mod votor;
@@ -166,6 +168,8 @@ fn real_main() {
                 "C19" => c19::gen_c19(seed, tier),
                 "C20" => c20::gen_c20(seed, tier),
                 "C15" => c15::generate(seed, tier),
+                "C17" => c17::gen_c17(seed, tier),
+                "C16" => c16::gen_c16(seed, tier),
                 "C03" => poolgen::gen_c03(seed, tier),
                 "C04" => poolgen::gen_c04(seed, tier),
                 "C05" => votor::gen_c05(seed, tier),
